@@ -820,30 +820,47 @@ def build_impl(chk):
 
 
 def run_parallel(binary, lines, nproc=6, timeout=300):
-    """run the line-protocol binary on `lines` split round-robin over nproc processes; returns (ok, outputs in order, err)"""
+    """run the line-protocol binary on `lines` split round-robin over nproc processes.  A process that dies or hangs on a
+    line gets the output CRASH for that line and is restarted on the rest (at most 12 restarts per chunk).
+    returns (ok, outputs in order, err)"""
     if not lines:
         return True, [], ""
     nproc = max(1, min(nproc, len(lines) // 200 + 1))
     chunks = [lines[i::nproc] for i in range(nproc)]
-    procs = [subprocess.Popen([binary], stdin=subprocess.PIPE, stdout=subprocess.PIPE, stderr=subprocess.PIPE, universal_newlines=True, errors="replace") for _ in chunks]
     import threading
     res = [None] * nproc
 
     def work(i):
-        try:
-            o, e = procs[i].communicate("".join(l + "\n" for l in chunks[i]), timeout=timeout)
-            res[i] = (procs[i].returncode, o.splitlines(), e)
-        except subprocess.TimeoutExpired:
-            procs[i].kill(); res[i] = (124, [], "[timeout]")
+        todo = chunks[i]; outs = []; errs = ""
+        for attempt in range(13):
+            if not todo:
+                break
+            pr = subprocess.Popen([binary], stdin=subprocess.PIPE, stdout=subprocess.PIPE, stderr=subprocess.PIPE, universal_newlines=True, errors="replace")
+            try:
+                o, e = pr.communicate("".join(l + "\n" for l in todo), timeout=timeout)
+                rc = pr.returncode
+            except subprocess.TimeoutExpired as ex:
+                pr.kill(); o, e = pr.communicate(); rc = 124
+            ol = o.splitlines()
+            if rc != 0 and ol and not o.endswith("\n"):
+                ol = ol[:-1]
+            ol = ol[:len(todo)]
+            outs += ol
+            if len(ol) == len(todo):
+                todo = []
+                break
+            errs += "rc=%s at `%s` %s\n" % (rc, todo[len(ol)][:200], (e or "")[-200:])
+            outs.append("CRASH rc=%s" % rc)
+            todo = todo[len(ol) + 1:]
+        res[i] = (outs, errs, len(todo) == 0)
     ths = [threading.Thread(target=work, args=(i,)) for i in range(nproc)]
     [t.start() for t in ths]; [t.join() for t in ths]
     out = [None] * len(lines); ok = True; err = ""
-    for i, (rc, o, e) in enumerate(res):
-        if rc != 0 or len(o) != len(chunks[i]):
-            ok = False
-            err += "chunk %d: rc=%s, %d/%d lines; first missing: %s\n%s\n" % (i, rc, len(o), len(chunks[i]), chunks[i][len(o)][:300] if len(o) < len(chunks[i]) else "", e[-400:])
-        for j, l in enumerate(o[:len(chunks[i])]):
-            out[i + j * nproc] = l
+    for i, (o, e, done) in enumerate(res):
+        ok = ok and done
+        err += e
+        for j2, l in enumerate(o[:len(chunks[i])]):
+            out[i + j2 * nproc] = l
     return ok, out, err
 
 
@@ -888,14 +905,13 @@ def main(tier, replay=None):
         cases = gen_cases(rng, tier, have)
     ilines = ["%s %s" % (c["iop"], " ".join(str(x) for x in c["iargs"])) for c in cases]
     okr, iout, ierr = run_parallel(himpl, ilines)
+    crashed = [i for i, o in enumerate(iout) if o is None or o.startswith("CRASH")]
+    for i in crashed[:40]:
+        chk.fail_input("harness:" + cases[i]["iop"], "crash-or-hang", dict(cases[i]), "a result line", str(iout[i]), "the implementation crashed or hung on this case; " + ierr[-300:])
     if not okr:
-        bad = next((i for i, o in enumerate(iout) if o is None), None)
-        if bad is not None:
-            chk.fail_input("harness", "crash-or-hang", dict(cases[bad]), "a result line", "the implementation harness stopped at (or before) this case", ierr[-800:])
-        else:
-            chk.broke("implementation harness failed", ierr)
+        chk.broke("implementation harness failed repeatedly", ierr[-2000:])
         return chk.finish()
-    mlines = [model_line(c, o) for c, o in zip(cases, iout)]
+    mlines = [None if (o is None or o.startswith("CRASH")) else model_line(c, o) for c, o in zip(cases, iout)]
     mout = None
     idx = [i for i, m in enumerate(mlines) if m is not None]
     if drv:
@@ -909,7 +925,10 @@ def main(tier, replay=None):
     ncorr = 0
     dist = {}
     nb = 0
+    crashed = set(crashed)
     for i, c in enumerate(cases):
+        if i in crashed:
+            continue
         ok, exp, site, klass = spec(c, iout[i], cache)
         key = c["kind"] + "/" + klass
         dist[key] = dist.get(key, 0) + 1
